@@ -340,6 +340,50 @@ def with_form_overwidth(chk):
             f.hook.remove_function(f)
 
 
+def plugin_wrapper_on_base(chk):
+    """a plug-in's pass-through wrapper (an observer of the width, registered on BaseRollPass.OutProfile) around width models registered on the concrete pass
+    classes: the prescribed width stays the prescribed width, too wide a prescription is still refused"""
+    from pyroll.core import Roll, RollPass, ThreeRollPass, BaseRollPass, Profile, CircularOvalGroove
+    seen = []
+
+    def observe(self, cycle):
+        if cycle:
+            return None
+        value = yield
+        seen.append(value)
+        return value
+    fs = [RollPass.Profile.flow_stress(lambda self: 50e6), ThreeRollPass.Profile.flow_stress(lambda self: 50e6)]
+    wrap = BaseRollPass.OutProfile.width(observe, wrapper=True)
+    try:
+        for cls, g in ((RollPass, CircularOvalGroove(depth=8e-3, r1=6e-3, r2=40e-3)), (ThreeRollPass, CircularOvalGroove(depth=4e-3, r1=3e-3, r2=25e-3, pad_angle=30))):
+            for factor in (0.9, 1.6):
+                rp = cls(label="p", roll=Roll(groove=g, nominal_radius=160e-3, rotational_frequency=1), gap=2e-3)
+                want = factor * float(rp.usable_width)
+                model = cls.OutProfile.width(lambda self, cycle, want=want: None if cycle else want)
+                chk.cov['evaluations'] += 1
+                try:
+                    try:
+                        out = rp.solve(Profile.round(diameter=30e-3, temperature=1473.15, strain=0, material="C45", length=1))
+                        err = None
+                    except Exception as e:      # noqa
+                        out, err = None, e
+                finally:
+                    model.hook.remove_function(model)
+                data = {'pass': cls.__name__, 'prescribed': want, 'wrapper_on': 'BaseRollPass.OutProfile.width'}
+                if factor < 1:
+                    got = None if out is None else float(rp.out_profile.width)
+                    if out is None or abs(got - want) > 1e-9 * want:
+                        return chk.fail('width', f"{cls.__name__} with a width model on {cls.__name__}.OutProfile prescribing {want:.6g} and a pass-through wrapper on "
+                                        f"BaseRollPass.OutProfile.width: the outgoing width is {got} ({type(err).__name__ if err else 'no error'})", data)
+                elif out is not None:
+                    return chk.fail('overwidth-not-reported', f"{cls.__name__} with a width model prescribing {want:.6g} (1.6 x usable width, beyond the contours) and a "
+                                    f"pass-through wrapper on BaseRollPass.OutProfile.width: no error, the pass delivers {float(rp.out_profile.width):.6g}", data)
+    finally:
+        wrap.hook.remove_function(wrap)
+        for f in fs:
+            f.hook.remove_function(f)
+
+
 def observed_in_profile(chk):
     """looking at the incoming profile before the solve (its width, height, equivalent rectangle - what a notebook display evaluates), or feeding the
     out profile OBJECT of a solved pass into the next pass, changes nothing: the outgoing width is the prescribed one, by default the usable width"""
@@ -357,6 +401,8 @@ def observed_in_profile(chk):
             try:
                 ip = Profile.round(diameter=30e-3, temperature=1473.15, strain=0, material="C45", length=1)
                 looked = (ip.width, ip.height, ip.equivalent_rectangle, ip.equivalent_width)      # remembered on the incoming profile from here on
+                from common import look_at
+                look_at(ip)         # ... and displayed (repr, __attrs__, html): remembered values stay remembered values
                 out = rp.solve(ip)
                 chk.cov['evaluations'] += 2
                 for label, unit, prof, groove in (("oval pass, incoming profile looked at before the solve", rp, out, g),):
@@ -365,6 +411,7 @@ def observed_in_profile(chk):
                     if abs(w - want) > 1e-9 * want or abs(float(unit.out_profile.width) - want) > 1e-9 * want:
                         return chk.fail('width', f"{label}: the outgoing profile is {w:.6g} wide (out_profile.width = {float(unit.out_profile.width):.6g}), prescribed "
                                         f"{'by a width model' if prescribed else 'by default (usable width)'}: {want:.6g}", {'prescribed': prescribed, 'case': label})
+                look_at(rp), look_at(rp.out_profile)
                 rp.out_profile.width, rp.out_profile.height        # the out profile object of the solved pass, looked at, is the next pass's incoming profile
                 out2 = rp2.solve(rp.out_profile)
                 want = (prescribed or 1.0) * g2.usable_width
@@ -436,6 +483,8 @@ def run(chk):
         solved_passes(chk, rng)
     if not chk.failures:
         with_form_overwidth(chk)
+    if not chk.failures:
+        plugin_wrapper_on_base(chk)
     if not chk.failures:
         observed_in_profile(chk)
     if not chk.failures:
